@@ -48,6 +48,8 @@ C13OK(e) ==
   /\ (e.act = "Forward" /\ e.outcome = "ok") => ForwardPure(e)
   /\ (e.act = "Quantize" /\ e.outcome = "ok") => \A k \in 1..Len(e.preserved) : e.preserved[k].weight_same /\ e.preserved[k].bias_same
   /\ (e.act = "RaiseIn") => e.raised = TRUE
+  /\ (e.act = "LibCall") => (e.outcome = "ok" /\ e.inputs_unchanged /\ e.state_before = e.state_digest)   \* LibraryCallsPure
+  /\ (e.act \in {"Freeze", "Save", "DeepCopy"} /\ e.outcome = "ok") => TRUE
 
 (* ======================== C08: quantize() and the forward recipe ================================== *)
 HyperSame(a, b) == a.hyper = b.hyper /\ a.has_bias = b.has_bias /\ a.dtype = b.dtype /\ a.device = b.device /\ a.name = b.name
